@@ -112,6 +112,11 @@ pub fn install_hooks() {
     crate::verif::install(Box::new(H));
 }
 
+/// Removes what install_hooks created.
+pub fn cleanup() {
+    let _ = ::std::fs::remove_file(bad_depfile_path());
+}
+
 fn check_over() {
     let over = OVER.lock().unwrap_or_else(|e| e.into_inner()).take();
     if let Some(d) = over {
